@@ -202,6 +202,23 @@ def tlc_simulate(module, cfg, tag, num, depth, seed, timeout=300, rename=None):
     return bs, r
 
 
+def tlc_table(module, tag, out_name, timeout=300):
+    """Runs TLC on a module whose ASSUMEs prove properties of a pure operator over a
+    finite domain and serialise its complete table as JSON; returns (table, result)."""
+    d = scratch(tag)
+    open(os.path.join(d, 'table.cfg'), 'w').write('SPECIFICATION Spec\n')
+    t0 = time.time()
+    rc, out = _tlc(d, ['-metadir', os.path.join(d, 'meta'), '-config', 'table.cfg', module], timeout)
+    r = parse_tlc(out)
+    r.update(rc=rc, out=out, wall=time.time() - t0, module=module, cfg='(assumptions)')
+    table = None
+    p = os.path.join(d, out_name)
+    if os.path.exists(p) and r['complete']:
+        table = json.load(open(p))
+    shutil.rmtree(d, ignore_errors=True)
+    return table, r
+
+
 def tlc_trace(module, cfg, tag, trace_file, timeout=300, dfs=False):
     """Trace validation: is the recorded implementation trace a behaviour of the
     specification, with every conformance invariant true in every state?"""
